@@ -5,7 +5,8 @@ Driver of the C16 model (`Model/KmlGuard`). One request per line, prefix notatio
 
   plan <n> Clause*n                              -> ok | err:<code>:<tag>
   export WList                                   -> ok | err:syntax:<tag>
-  assert <seq> OptStr Term PAtom Term Asg OptERef -> ok <n> Clause*n | none:<reason>
+  assert <seq> OptStr PropM Asg OptERef          -> ok <n> Clause*n | none:<reason>   (`assert_statement`)
+  ensure OptStr PropM <0|1>                      -> ok Clause | none:<reason>          (`ensure_proposition`)
   kind ERef OptWhere                             -> kinds:<k,…>|kinds:-   (the kinds `guard_update` guards the target for)
 
 Strings: `=text` (text over [A-Za-z0-9_#.-], non-empty) or `~hex` (anything else; kept opaque —
@@ -551,6 +552,11 @@ def assertErrTag : AssertErr → String
   | .missingMode => "missing_mode"
   | .badKey => "bad_key"
 
+def tupleErrTag : TupleErr → String
+  | .bareId => "bare_id"
+  | .predPath => "pred_path"
+  | .predVariable => "pred_variable"
+
 def handle (line : String) : String :=
   match words line with
   | "plan" :: r =>
@@ -569,21 +575,33 @@ def handle (line : String) : String :=
       | _ => "bad-op"
     | none => "bad-op"
   | "assert" :: r =>
-    let parsed : Option (Nat × AssertSrc) := do
+    let parsed : Option (Nat × AssertText) := do
       let (seq, r) ← pNat r
       let (h, r) ← pOpt pStr r
-      let (s, r) ← pTerm r
-      let (p, r) ← pPAtom r
-      let (o, r) ← pTerm r
+      let (pm, r) ← pPropM r
       let (m, r) ← pAsg r
       let (sup, r) ← pOpt pERef r
       if r ≠ [] then none
-      pure (seq, { handle := h, subject := s, predicate := p, object := o, members := m, superseding := sup })
+      pure (seq, { handle := h, matcher := pm, members := m, superseding := sup })
     match parsed with
     | some (seq, src) =>
-      match desugarAssert src seq with
+      match lowerAssert src seq with
       | .ok cs => " ".intercalate (["ok", toString cs.length] ++ cs.map showClause)
-      | .error e => "none:" ++ assertErrTag e
+      | .error (.members e) => "none:" ++ assertErrTag e
+      | .error (.tuple e) => "none:" ++ tupleErrTag e
+    | none => "bad-op"
+  | "ensure" :: r =>
+    let parsed : Option (Option String × PropMatcher × Bool) := do
+      let (h, r) ← pOpt pStr r
+      let (pm, r) ← pPropM r
+      let (ev, r) ← pBool r
+      if r ≠ [] then none
+      pure (h, pm, ev)
+    match parsed with
+    | some (h, pm, ev) =>
+      match lowerEnsure h pm ev with
+      | .ok c => "ok " ++ showClause c
+      | .error e => "none:" ++ tupleErrTag e
     | none => "bad-op"
   | _ => "bad-op"
 
